@@ -9,7 +9,7 @@ import numpy as np
 from .. import refine, runs
 
 MODULE = 'PyhmsVerif.Props.C02Log'
-THEOREMS = ['C02.C02_stored_evaluated', 'C02.eval_value', 'C02.C02_history_immutable', 'C02.step_first', 'C02.chain_all', 'C16.transparent', 'C02.C02_stored_is_objective_value', 'C02.step_evlog', 'C02.evalReqs_backed', 'EngineDE.deGen_carry', 'EngineDE.deGen_requests', 'EngineSEA.seaOffspring_carried']
+THEOREMS = ['C02.C02_stored_evaluated', 'C02.eval_value', 'C02.C02_history_immutable', 'C02.step_first', 'C02.chain_all', 'C16.transparent', 'C02.C02_stored_is_objective_value', 'C02.step_evlog', 'C02.evalReqs_backed', 'EngineDE.deGen_carry', 'EngineDE.deGen_requests', 'EngineSEA.seaOffspring_carried', 'EngineDE.shadeGen_requests_carry']
 EXTRA_MODULES = ['PyhmsVerif.Props.EngineDE', 'PyhmsVerif.Props.EngineSEA']
 LEVEL = 'proof'
 LEVEL_TEXT = 'Theorems: one evaluation request returns exactly the value the objective returned (wrappers transparent) and logs that pair, a refused request returns the sentinel; in every reachable state every stored individual of every deme was evaluated while one of that deme generations was made, or carries the sentinel of an exhausted budget, or is the deme sprout seed (local deme starting point); recorded metaepochs never change in any later state. Tie: trace refinement (full histories as exact rationals in every dump; the model rejects unevaluated stored individuals) + monitor re-evaluating every stored genome, digests of recorded generations at all later boundaries, minimize(). NEW: C02_stored_is_objective_value — in every reachable state every stored individual is backed by a logged invocation of the objective by that deme, at that level, at exactly its genome, that returned exactly its fitness — or carries the sentinel of a refused request, or is the deme own seed (inductive invariant EvLog on well-formed trees). ENGINE LEVEL (Model/Engine.lean, Props/EngineDE.lean): one whole generation of DE.run / SHADE.run is in the model, deterministic given the generator draws (donor arithmetic in binary64, reflect repair, crossover mask incl. the row-zeroing quirk, fitness carry-over, which rows are evaluated, replacement), and is diffed bit-exactly against the real engines with recorded draws: deGen_carry — a trial that keeps a fitness without being evaluated is its parent (same genome, same fitness), every other trial carries a logged objective value; deGen_requests — the evaluated rows are exactly the rows that differ from their parent. SEA FAMILY (Engine.seaOffspring, Props/EngineSEA.lean): one pass of the variational pipeline (tournament = first best contestant, arithmetic crossover in binary64, Gaussian mutation with toroidal repair or uniform mutation, loss of fitness on changed rows, evaluation in row order) is in the model and diffed bit-exactly against BaseSEA.run with recorded draws: seaOffspring_carried — every offspring either was evaluated in this pass or is, genome and fitness together, an individual of the parent population (all three pipelines).'
